@@ -255,7 +255,8 @@ def tests_line(sid):
 
 
 def main():
-    res = parse(sys.argv[1:])
+    append = '--append' in sys.argv          # keep the existing table rows, add / replace only the ids found in these logs
+    res = parse([a for a in sys.argv[1:] if a != '--append'])
     rows = ['| change | seeded in | needs to manifest | demo with / without | caught by (quick tier, seed 0) | not caught by |', '|---|---|---|---|---|---|']
     for sid in sorted(res):
         r = res[sid]
@@ -278,6 +279,9 @@ def main():
     s = open(p).read()
     a = s.index('<!-- SEEDED-BEGIN -->') + len('<!-- SEEDED-BEGIN -->')
     b = s.index('<!-- SEEDED-END -->')
+    if append:
+        old = [l for l in s[a:b].strip().split('\n') if l.startswith('| C') and l.split('|')[1].strip() not in res]
+        rows = rows[:2] + sorted(old + rows[2:])
     open(p, 'w').write(s[:a] + '\n' + '\n'.join(rows) + '\n' + s[b:])
     print('seeded changes', len(res), 'caught', sum(1 for r in res.values() if any(v['rc'] == 1 for v in r['checks'].values())))
 
